@@ -1,4 +1,4 @@
-From AQ Require Import lib.Base model.H3Parse proofs.H3Chunk proofs.H3Split.
+From AQ Require Import lib.Base model.H3Parse proofs.H3Chunk proofs.H3Split proofs.H3Loop proofs.H3Recv proofs.H3Fin.
 
 (* On the code as pinned, the events of a request stream depend on the chunking: three byte strings for which
    whole delivery and a two-chunk delivery give different normalised events (end-of-stream marker). *)
@@ -35,7 +35,63 @@ Theorem chunking_witnesses_agree_when_fixed :
 Proof. exact chunking_witnesses_fixed. Qed.
 Print Assumptions chunking_witnesses_agree_when_fixed.
 
-(* PARTIAL (see docs/C14.md): the pieces of "feeding a ++ b = feeding a then b" that are proved for ALL inputs,
+(* FULL STRENGTH, request / push streams, model of the patched code (C14-fix-1 = fx_trunc, C14-fix-2 = fx_endmark; the
+   other flags are arbitrary): for EVERY stream state a delivery can leave behind (stream_ok: receiving side not ended;
+   fresh streams qualify, and the property is preserved by every delivery: stream_ok_preserved), EVERY byte string
+   cut into EVERY number of deliveries, FIN on the last delivery (an empty last part = FIN as a delivery of its own)
+   or no FIN, EVERY QPACK / validation oracle (including one that blocks: the oracle is the same function in both
+   runs, i.e. no encoder-stream data arrives in between): the chunked delivery and the whole delivery give the same
+   normalised events, the same final parser state, or the same connection error code (requiv). *)
+Theorem chunking_independent :
+  forall fx O cl, fx_trunc fx = true -> fx_endmark fx = true ->
+  forall parts st0 first fin, stream_ok st0 ->
+  requiv (feed fx O cl st0 (mk_chunks first parts fin)) (rq_recv fx O cl st0 (first ++ concat parts) fin).
+Proof. exact chunks_whole. Qed.
+Print Assumptions chunking_independent.
+
+(* hence any two splittings of the same byte string are indistinguishable *)
+Theorem chunking_independent_any_two_splittings :
+  forall fx O cl, fx_trunc fx = true -> fx_endmark fx = true ->
+  forall st0 f1 p1 f2 p2 fin, stream_ok st0 -> f1 ++ concat p1 = f2 ++ concat p2 ->
+  requiv (feed fx O cl st0 (mk_chunks f1 p1 fin)) (feed fx O cl st0 (mk_chunks f2 p2 fin)).
+Proof. exact chunks_any. Qed.
+Print Assumptions chunking_independent_any_two_splittings.
+
+(* the hypothesis: true of a new stream and kept by every delivery without FIN *)
+Theorem chunking_hypothesis_fresh : forall sid, stream_ok (new_stream sid).
+Proof. exact stream_ok_fresh. Qed.
+Print Assumptions chunking_hypothesis_fresh.
+
+Theorem chunking_hypothesis_preserved :
+  forall fx O cl, fx_trunc fx = true -> fx_endmark fx = true ->
+  forall st0 d e st', stream_ok st0 -> rq_recv fx O cl st0 d false = RVal e st' -> stream_ok st'.
+Proof. exact stream_ok_preserved. Qed.
+Print Assumptions chunking_hypothesis_preserved.
+
+(* the two halves: bytes cut in two without FIN; FIN together with the last bytes = FIN on its own afterwards *)
+Theorem chunking_independent_two_deliveries :
+  forall fx O cl, fx_trunc fx = true -> fx_endmark fx = true ->
+  forall st0 a b fin, stream_ok st0 ->
+  requiv (rq_recv fx O cl st0 (a ++ b) fin) (rbind (rq_recv fx O cl st0 a false) (fun s => rq_recv fx O cl s b fin)).
+Proof. exact two_chunks. Qed.
+Print Assumptions chunking_independent_two_deliveries.
+
+Theorem chunking_independent_fin_late :
+  forall fx O cl, fx_trunc fx = true -> fx_endmark fx = true ->
+  forall st0 a, stream_ok st0 ->
+  requiv (rq_recv fx O cl st0 a true) (rbind (rq_recv fx O cl st0 a false) (fun s => rq_recv fx O cl s [] true)).
+Proof. exact fin_late. Qed.
+Print Assumptions chunking_independent_fin_late.
+
+(* the frame loop itself: running it on x ++ b = running it on x, then resuming with b *)
+Theorem frame_loop_split :
+  forall fx O cl, fx_trunc fx = true -> fx_endmark fx = true ->
+  forall f st x b evs, LH st -> measure st (x ++ b) < Z.of_nat f ->
+  requiv (rq_loop f fx O cl false st (x ++ b) evs) (resume fx O cl b (rq_loop f fx O cl false st x evs)).
+Proof. exact loop_split. Qed.
+Print Assumptions frame_loop_split.
+
+(* Lemmas used on the way (kept; they were the partial result of the first round), proved for ALL inputs,
    for the model of the patched code (fx_trunc, fx_endmark).
    (1) a delivery x that leaves the parser where it was (it stops inside a frame header or inside the payload of a
        non-DATA frame, nothing consumed) followed by b gives the same events and state as delivering x ++ b; *)
